@@ -500,6 +500,70 @@ func expectedSubmitValues(typ string, o setOp) []string {
 	return wireValues(typ, raw)
 }
 
+// expectedSet is the documented outcome of Set(id, v): an error for a fixed field
+// or a value whose type does not fit the field, otherwise whether the field exists.
+func expectedSet(fd formDesc, o setOp) string {
+	typ, found := "", false
+	for _, f := range fd.fields {
+		if f.varName == o.id {
+			typ, found = f.typ, true
+			break
+		}
+	}
+	want := map[string]byte{"boolean": 'b', "text-single": 's', "text-private": 's', "hidden": 's', "list-single": 's', "text-multi": 's',
+		"jid-single": 'j', "jid-multi": 'J', "list-multi": 'l'}
+	if typ == "fixed" {
+		return "E"
+	}
+	if k, ok := want[typ]; ok && k != o.kind {
+		return "E"
+	}
+	return common.B(found)
+}
+
+// expectedDefault is what Get returns for a field that was never Set.
+func expectedDefault(f fieldDesc) (string, bool) {
+	switch f.typ {
+	case "fixed":
+		return encVal(""), false
+	case "boolean":
+		for _, v := range f.values {
+			if v == "false" || v == "0" {
+				return encVal(false), true
+			}
+			if v == "true" || v == "1" {
+				return encVal(true), true
+			}
+		}
+		return encVal(false), false
+	case "text-single", "text-private", "hidden", "list-single":
+		if len(f.values) == 0 {
+			return encVal(""), false
+		}
+		return encVal(f.values[0]), true
+	case "jid-single":
+		for _, v := range f.values {
+			if n, ok := jidNorm(v); ok {
+				return "j:" + hx(n), true
+			}
+		}
+		return "j:", false
+	case "jid-multi":
+		var l []string
+		for _, v := range f.values {
+			if n, ok := jidNorm(v); ok {
+				l = append(l, hx(n))
+			}
+		}
+		return "J:" + encList(l), len(l) > 0
+	case "text-multi":
+		return encVal(strings.Join(f.values, "\n")), len(f.values) > 0
+	case "list-multi":
+		return encVal(append([]string(nil), f.values...)), len(f.values) > 0
+	}
+	return "nil", false
+}
+
 type formRun struct {
 	c    *ctx
 	fd   formDesc
@@ -626,6 +690,10 @@ func formCase(c *ctx, sub uint64, bad bool, class string) {
 			setRes[i] = common.B(ok)
 			lastSet[o.id] = o
 		}
+		if want := expectedSet(fd, o); !dup && setRes[i] != "P" && setRes[i] != want {
+			r.Fail("set-typed", "form.Data/Set/"+want+"-got-"+setRes[i], lines,
+				fmt.Sprintf("Set(%q, %s) = %s, want %s\n%s", o.id, encVal(o.value()), setRes[i], want, describe()))
+		}
 	}
 	opsEnc := encOps(ops)
 	var extra []string
@@ -661,6 +729,18 @@ func formCase(c *ctx, sub uint64, bad bool, class string) {
 		}
 		if !dup && repr {
 			r.Line(fmt.Sprintf("fget %s %s %s %s", jt2, fd.enc(), opsEnc, hxOrDash(id)), encVal(v)+" "+common.B(ok))
+		}
+		if _, was := lastSet[id]; !was && !dup {
+			for _, f := range fd.fields {
+				if f.varName == id {
+					wv, wok := expectedDefault(f)
+					if encVal(v) != wv || ok != wok {
+						r.Fail("get-default", "form.Data/Get/"+f.typ, lines,
+							fmt.Sprintf("Get(%q) of an unset %s field with values %q = %s,%v want %s,%v\n%s", id, f.typ, f.values, encVal(v), ok, wv, wok, describe()))
+					}
+					break
+				}
+			}
 		}
 		if o, was := lastSet[id]; was {
 			if !ok || encVal(v) != encVal(o.value()) {
